@@ -125,9 +125,9 @@ let () =
               let gs = { g_max_it = z_of_int maxit; g_max_step = float_of_string maxstep; g_thr = float_of_string thr; g_ensure = z_of_int (int_of_string ens);
                          g_max_ls = nat_of_int 10; g_armijo = 1.0e-4; g_curv = 0.1 } in
               if algo = 0 then
-                (* bounded L-BFGS (the unbounded driver is not modelled) *)
                 let ls = { lb_cg = gs; lb_curv = 0.9; lb_n_states = z_of_int (min n 6); lb_tiny = 10.0 *. min_float } in
-                lbfgs_bounded ops cost grad norm2p sqrt isfinite (fun z -> float_of_int (int_of_z z)) fo ls k lo hi x0 (-1.0) infinity
+                if bounded then lbfgs_bounded ops cost grad norm2p sqrt isfinite (fun z -> float_of_int (int_of_z z)) fo ls k lo hi x0 (-1.0) infinity
+                else lbfgs_unbounded ops cost grad norm2p sqrt isfinite (fun z -> float_of_int (int_of_z z)) fo ls k x0 (-1.0) infinity
               else if bounded then cg_bounded ops cost grad norm2p sqrt isfinite fo gs k (algo = 2) lo hi x0 (-1.0) infinity
               else cg_unbounded ops cost grad norm2p sqrt isfinite fo gs k (algo = 2) x0 (-1.0) infinity
             end in
